@@ -1,3 +1,4 @@
+import BasicModel.Gen.Limits
 import BasicModel.Thm.C13
 import BasicModel.Lemmas.Enter
 /-
@@ -249,6 +250,10 @@ theorem utf8Len_replicate (n : Nat) : RStd.utf8Len (List.replicate n 'A') = n :=
 example : (enter env0 { ({} : Runtime) with state := .stopped } (List.replicate 1025 'A')).state =
     .runtimeError (Error.mk' Code.lineBufferOverflow) := by
   rw [enter_too_long_rejected env0 _ _ (by decide) (by decide) (by rw [utf8Len_replicate]; omega)]
+
+/-- line buffer and stack limits re-extracted from mach/mod.rs and stack.rs; `Gen/Limits.lean` is regenerated from /repo/src on every run, so editing one of these
+    constants in the Rust source breaks this obligation -/
+theorem generated_limits_documented : Gen.maxLineLen = 1024 ∧ Gen.stackMaxLen = 65535 := by decide
 
 end Thm.C03
 end Basic
